@@ -191,57 +191,130 @@ def impl_checks(nodes, k, st):
 DICT_T = "(list (str * str))"
 
 
-def c_dict(d):
+class StrTable:
+    """Strings shared by a group of histories are bound once by `let` (parsing numeral lists dominates the cost of coqc)."""
+
+    def __init__(self):
+        self.names = {}
+
+    def __call__(self, s):
+        s = str(s)
+        if s not in self.names:
+            self.names[s] = f"s{len(self.names)}"
+        return self.names[s]
+
+    def wrap(self, body):
+        binds = "".join(f"let {name} : str := {cstr(s)} in " for s, name in self.names.items())
+        return f"({binds}{body})"
+
+
+def c_dict(d, S):
     if d is None:
         return copt(None, DICT_T)
-    return copt(clist([ctuple(cstr(str(k)), cstr(str(v))) for k, v in d.items()], "(str * str)"))
+    return copt(clist([ctuple(S(k), S(v)) for k, v in d.items()], "(str * str)"))
 
 
-def c_comp(gen, stored, current):
-    return "{| c_generated := %s; c_stored := %s; c_current := %s |}" % (cbool(gen), c_dict(stored), c_dict(current))
+def c_comp(gen, stored, current, S):
+    return "(Build_comp %s %s %s)" % (cbool(gen), c_dict(stored, S), c_dict(current, S))
 
 
 def node_id(i):
     return i + 1
 
 
-def c_node(i, nd):
+def c_node(i, nd, S):
     method, path, params = OPS[nd["op"]]
     parent = nd["parent"]
     pid = None if parent is None else (cN(999) if parent == "dangling" else cN(node_id(parent)))
     pp_cur = nd["pp"] if nd["pp_mut"] is None else {**(nd["pp"] or {}), **nd["pp_mut"]}
     q_cur = nd["q"] if nd["q_mut"] is None else {**(nd["q"] or {}), **nd["q_mut"]}
-    return (
-        "{| n_id := %s; n_parent := %s; n_method := %s; n_path := %s; n_pp := %s; n_query := %s; "
-        "n_params := %s; n_linked := %s; n_status := %s |}"
-        % (
-            cN(node_id(i)),
-            copt(pid, "N"),
-            cstr(method),
-            cstr(path),
-            c_comp(nd["pp_gen"], nd["pp"], pp_cur),
-            c_comp(nd["q_gen"], nd["q"], q_cur),
-            clist([ctuple(cN(loc), cstr(name)) for loc, name in params], "(N * str)"),
-            clist([ctuple(cN(loc), cstr(name)) for loc, name in nd["linked"]], "(N * str)"),
-            copt(None if nd["status"] is None else cN(nd["status"]), "N"),
-        )
+    # Build_node n_id n_parent n_method n_path n_pp n_query n_params n_linked n_status
+    return "(Build_node %s %s %s %s %s %s %s %s %s)" % (
+        cN(node_id(i)),
+        copt(pid, "N"),
+        S(method),
+        S(path),
+        c_comp(nd["pp_gen"], nd["pp"], pp_cur, S),
+        c_comp(nd["q_gen"], nd["q"], q_cur, S),
+        clist([ctuple(cN(loc), S(name)) for loc, name in params], "(N * str)"),
+        clist([ctuple(cN(loc), S(name)) for loc, name in nd["linked"]], "(N * str)"),
+        copt(None if nd["status"] is None else cN(nd["status"]), "N"),
     )
 
 
-def c_history(nodes):
-    return clist([c_node(i, nd) for i, nd in enumerate(nodes)], "node")
+def c_history(nodes, S):
+    return clist([c_node(i, nd, S) for i, nd in enumerate(nodes)], "node")
 
 
-def model_expr(nodes, k, st):
-    """One expression evaluating the model, the reference predicates and the regions for (history, checked node, status)."""
+def model_body(nodes, k, st, S, light=False):
     s = cN(st)
+    if light:
+        # the exhaustive universe: ids are always distinct and parents earlier, same_tree is cross-checked in the other stages
+        return (
+            f"(let h := {c_history(nodes, S)} in match nth_error h {k} with None => None | Some c => Some ("
+            f"option_map (map n_id) (find_related h (n_id c)), use_after_free h c {s}, ensure_resource_availability h c {s}, "
+            f"[uaf_allowed h c {s}; uaf_required h c {s}; avail_allowed h c {s}; wf h; is_last h c; true; "
+            f"delete_agrees_with_parent h; prefix_region_all h c; parent_not_3xx h c; override_faithful c], (@nil bool)) end)"
+        )
     return (
-        f"(let h := {c_history(nodes)} in match nth_error h {k} with None => None | Some c => Some ("
+        f"(let h := {c_history(nodes, S)} in match nth_error h {k} with None => None | Some c => Some ("
         f"option_map (map n_id) (find_related h (n_id c)), use_after_free h c {s}, ensure_resource_availability h c {s}, "
         f"[uaf_allowed h c {s}; uaf_required h c {s}; avail_allowed h c {s}; wf h; is_last h c; is_root c || is_leaf h c; "
         f"delete_agrees_with_parent h; prefix_region_all h c; parent_not_3xx h c; override_faithful c], "
         f"map (fun n => same_tree h n c) h) end)"
     )
+
+
+def model_expr(nodes, k, st):
+    """One expression evaluating the model, the reference predicates and the regions for (history, checked node, status)."""
+    S = StrTable()
+    return S.wrap(model_body(nodes, k, st, S))
+
+
+CHUNK = 400
+
+
+def model_eval(batch, light=False):
+    """Model results for a list of (nodes, k, st).  Same mechanism as core.coq_eval (vm_compute inside coqc, output parsed by
+    core.parse_coq_value) but one `Eval` command per history and the string constants of a chunk bound once by Definitions:
+    elaborating one huge list literal is several times slower than elaborating its elements one by one."""
+    import re
+    import shutil
+    import subprocess
+    import tempfile
+    from concurrent.futures import ThreadPoolExecutor
+    from pathlib import Path
+
+    if not batch:
+        return []
+    header = "From Coq Require Import List NArith ZArith Bool.\n" + "".join(f"From Verif Require Import {m}.\n" for m in IMPORTS)
+    header += "Import ListNotations.\nSet Printing Width 2000000000.\nSet Printing Depth 100000000.\n"
+    core.SCRATCH.mkdir(exist_ok=True)
+    td = tempfile.mkdtemp(dir=core.SCRATCH, prefix="c18_eval_")
+    chunks = [batch[i : i + CHUNK] for i in range(0, len(batch), CHUNK)]
+
+    def one(idx_chunk):
+        idx, chunk = idx_chunk
+        S = StrTable()
+        bodies = [model_body(nodes, k, st, S, light) for nodes, k, st in chunk]
+        text = header + "".join(f"Definition {name} : str := {cstr(x)}.\n" for x, name in S.names.items())
+        text += "".join(f"Eval vm_compute in {b}.\n" for b in bodies)
+        f = Path(td) / f"cases_{idx}.v"
+        f.write_text(text)
+        p = subprocess.run(["timeout", "600", "coqc", "-Q", str(core.THEORIES), "Verif", str(f)], capture_output=True, text=True, cwd=td)
+        if p.returncode != 0:
+            raise RuntimeError(f"coqc failed while evaluating the model ({f.name}): {(p.stdout + p.stderr)[-2000:]}")
+        vals = [core.parse_coq_value(m.group(1)) for m in re.finditer(r"^\s*=\s*(.*?)\n\s*:\s", p.stdout, flags=re.S | re.M)]
+        if len(vals) != len(chunk):
+            raise RuntimeError(f"model returned {len(vals)} values for {len(chunk)} cases")
+        return vals
+
+    try:
+        with ThreadPoolExecutor(max_workers=8) as ex:
+            parts = list(ex.map(one, enumerate(chunks)))
+        return [v for part in parts for v in part]
+    finally:
+        shutil.rmtree(td, ignore_errors=True)
 
 
 def canon_model(nodes, v):
@@ -505,8 +578,9 @@ def gen_lifecycle(rng):
 
 
 def small_universe(max_nodes):
-    """Every history of up to max_nodes nodes over 2 collections x 2 ids x {POST, GET, DELETE} x {success, 404},
-    any parent among the earlier nodes; the checked node is the last one, checked for 200 and for 404."""
+    """Every history of up to max_nodes nodes over 2 collections x 2 ids x {POST, GET, DELETE} x {success, 404}, any parent
+    among the earlier nodes; the checked node is the last one: GET /users/1 (all parameters from a link when it has a parent)
+    answered 200 or 404 - up to the symmetry between the collections and between the ids this is every checked GET."""
     kinds = []
     for op in (0, 3):
         kinds.append((op, None))
@@ -516,7 +590,7 @@ def small_universe(max_nodes):
     per_node = [(op, i, s) for op, i in kinds for s in (True, False)]
     for n in range(1, max_nodes + 1):
         parent_choices = [[None] + list(range(i)) for i in range(n)]
-        for combo in itertools.product(per_node, repeat=n):
+        for combo in itertools.product(per_node, repeat=n - 1):
             for parents in itertools.product(*parent_choices):
                 nodes = []
                 for (op, i, ok), parent in zip(combo, parents):
@@ -526,7 +600,41 @@ def small_universe(max_nodes):
                     if parent is not None and i is not None:
                         nd["linked"] = [[PATH, "id"]]
                     nodes.append(nd)
-                yield nodes, n - 1, nodes[-1]["status"]
+                for st in (200, 404):
+                    last = mk(1, parent=parents[-1], status=st, pp={"id": "1"}, linked=[[PATH, "id"]] if parents[-1] is not None else [])
+                    yield nodes + [last], n - 1, st
+
+
+def five_node_universe():
+    """5-node histories over a reduced alphabet (one collection): POST ok, DELETE /users/1 ok or 404, DELETE /users/2 ok, GET /users/1 ok;
+    every parent assignment; checked GET /users/1 answered 200 or 404.  150 000 histories; the thorough tier takes a seeded tenth."""
+    per_node = [(0, None, 201), (2, "1", 204), (2, "1", 404), (2, "2", 204), (1, "1", 200)]
+    parent_choices = [[None] + list(range(i)) for i in range(5)]
+    for combo in itertools.product(per_node, repeat=4):
+        for parents in itertools.product(*parent_choices):
+            nodes = []
+            for (op, i, status), parent in zip(combo, parents):
+                nd = mk(op, parent=parent, status=status, pp=None if i is None else {"id": i})
+                if parent is not None and i is not None:
+                    nd["linked"] = [[PATH, "id"]]
+                nodes.append(nd)
+            for st in (200, 404):
+                last = mk(1, parent=parents[-1], status=st, pp={"id": "1"}, linked=[[PATH, "id"]] if parents[-1] is not None else [])
+                yield nodes + [last], 4, st
+
+
+def _impl_job(item):
+    return impl_checks(*item)
+
+
+def impl_many(batch):
+    """The implementation side of a batch; big batches are spread over worker processes (fork: the import of schemathesis is shared)."""
+    if len(batch) < 3000:
+        return [impl_checks(*item) for item in batch]
+    import multiprocessing
+
+    with multiprocessing.get_context("fork").Pool(8) as pool:
+        return pool.map(_impl_job, batch, chunksize=500)
 
 
 # ----------------------------------------------------------------------------------------
@@ -617,14 +725,18 @@ def prefix_stage(chk, n):
 
 
 # ----------------------------------------------------------------------------------------
-def compare_batch(chk, batch, stage, oracle=True):
+def compare_batch(chk, batch, stage, oracle=True, light=False):
     """batch: list of (nodes, k, st).  Implementation vs model, then implementation vs the reference predicates."""
     if not batch:
         return
-    model = core.coq_eval(IMPORTS, [model_expr(nodes, k, st) for nodes, k, st in batch], shard=400)
-    for (nodes, k, st), v in zip(batch, model):
+    from concurrent.futures import ThreadPoolExecutor
+
+    with ThreadPoolExecutor(max_workers=1) as ex:
+        fut = ex.submit(impl_many, batch)  # the implementation runs while coqc evaluates the model
+        model = model_eval(batch, light)
+        impls = fut.result()
+    for (nodes, k, st), v, impl in zip(batch, model, impls):
         canon = {"nodes": nodes, "checked": k, "status": st}
-        impl = impl_checks(nodes, k, st)
         mod = canon_model(nodes, v)
         bits = mod["bits"]
         interesting = impl["uaf"][0] != "pass" or impl["avail"][0] != "pass" or bits["uaf_allowed"] or bits["avail_allowed"]
@@ -657,7 +769,7 @@ def compare_batch(chk, batch, stage, oracle=True):
             continue
         # find_related against "every node of the tree except the case itself"
         tree = sorted(j for j in range(len(nodes)) if j != k and o_root(nodes, j) == o_root(nodes, k))
-        if [j for j in range(len(nodes)) if mod["same_tree"][j] and j != k] != tree:
+        if not light and [j for j in range(len(nodes)) if mod["same_tree"][j] and j != k] != tree:
             chk.disagree(f"{stage}: python same-tree vs Coq same_tree", canon, tree, mod["same_tree"])
         if sorted(impl["related"]) != tree or len(set(impl["related"])) != len(impl["related"]):
             if bits["root_or_leaf"]:
@@ -764,7 +876,7 @@ def run(chk: core.Check):
     # ---- random histories
     n = 5000 if quick else 40000
     if chk.broken:
-        n *= 3
+        n *= 10 if quick else 3  # a broken proof or tie must try hard to find a concrete failing input
     batch = [gen_history(rng) if rng.random() < 0.5 else gen_lifecycle(rng) for _ in range(n)]
     compare_batch(chk, batch, "random")
     chk.stages["correspondence_histories"] = {"corpus": len(corpus), "random": n}
@@ -775,19 +887,22 @@ def run(chk: core.Check):
         buf = []
         for item in small_universe(4):
             buf.append(item)
-            if len(buf) >= 20000:
-                compare_batch(chk, buf, "exhaustive")
+            if len(buf) >= 48000:
+                compare_batch(chk, buf, "exhaustive", light=True)
                 total += len(buf)
                 buf = []
                 if len(chk.broken) > 50:
                     break
-        compare_batch(chk, buf, "exhaustive")
+        compare_batch(chk, buf, "exhaustive", light=True)
         total += len(buf)
-        chk.stages["exhaustive_small_universe"] = {"histories": total, "max_nodes": 4, "collections": 2, "ids": 2}
+        five = [item for item in five_node_universe() if rng.random() < 0.1]
+        compare_batch(chk, five, "five-nodes", light=True)
+        chk.stages["exhaustive_small_universe"] = {"histories": total, "max_nodes": 4, "collections": 2, "ids": 2,
+                                                   "five_node_reduced_alphabet_sampled": len(five)}  # fmt: skip
     else:
-        small = list(small_universe(2))
-        compare_batch(chk, small, "exhaustive")
-        chk.stages["exhaustive_small_universe"] = {"histories": len(small), "max_nodes": 2, "collections": 2, "ids": 2}
+        small = [item for item in small_universe(3) if len(item[0]) <= 2 or rng.random() < 0.25]
+        compare_batch(chk, small, "exhaustive", light=True)
+        chk.stages["exhaustive_small_universe"] = {"histories": len(small), "max_nodes": "2, and a quarter of 3", "collections": 2, "ids": 2}
 
     # ---- listed findings: replay canonical witnesses on the implementation
     for f in chk.findings:
